@@ -185,6 +185,11 @@ def run_case(c):
         model = build(c['tree'])
         if c.get('root_eval'):
             model.eval()
+        if c.get('freeze_first'):
+            # a partly frozen recurrent layer (still trainable, so it is replaced): its frozen parameters stay frozen
+            for m_ in model.modules():
+                if type(m_).__name__ == 'LSTM' and sum(1 for _ in m_.parameters()) > 1:
+                    next(m_.parameters()).requires_grad_(False)
         fp0 = fingerprint(model)
         ids0 = {id(p) for p in model.parameters()} | {id(m) for m in model.modules()}
         st, v = try_(lambda: [type(e).__name__ for e in ModuleValidator.validate(model, strict=False)])
@@ -209,11 +214,21 @@ def run_case(c):
         out['mp_prewrapped_eval'] = try_(lambda: prewrapped(True))[0]
         # fix
         kw = c.get('kw', {})
-        st, fixed = try_(lambda: ModuleValidator.fix(model, **kw))
+        if c.get('f32default'):
+            # the (float64) model is fixed in a process whose default dtype is float32, the usual default: replacements keep the model's dtype
+            torch.set_default_dtype(torch.float32)
+        try:
+            st, fixed = try_(lambda: ModuleValidator.fix(model, **kw))
+        finally:
+            torch.set_default_dtype(torch.float64)
         out['fix'] = st if st != 'ok' else 'ok'
         out['fix_msg'] = fixed if st != 'ok' else ''
         out['arg_untouched'] = fingerprint(model) == fp0
         if st == 'ok':
+            d0 = {str(p.dtype) for p in model.parameters()}
+            out['fixed_dtype_diff'] = [n for n, p in fixed.named_parameters() if str(p.dtype) not in d0][:3]
+            if out['fixed_dtype_diff']:
+                fixed = fixed.double()          # reported as fix-changes-dtype; the remaining oracles run on the converted module
             out['fixed_validate'] = try_(lambda: [type(e).__name__ for e in ModuleValidator.validate(fixed, strict=False)])[1]
             out['fixed_gsm_errors'] = try_(lambda: len(GradSampleModule.validate(fixed, strict=False)))[1]
             out['fixed_mp'] = try_(lambda: private(copy.deepcopy(fixed)))[0]
@@ -236,6 +251,9 @@ def run_case(c):
             out['fixed_leaves'] = leaf_report(fixed, c['seed'])
             out['equiv_bad'] = equivalence(model, fixed, c['seed'])
             out['fixed_modes_kept'] = all(fm[n].training == om[n].training for n in om if n in fm)
+            out['fixed_unfrozen'] = [n + '.' + k for n in om if n in fm and type(om[n]).__name__ == 'LSTM' and type(fm[n]).__name__ == 'DPLSTM'
+                                     for k, p in om[n].named_parameters() if not p.requires_grad and dict(fm[n].named_parameters())[k].requires_grad][:3]
+            out['fixed_mode_diff'] = [n for n in om if n in fm and fm[n].training != om[n].training][:3]
     except Exception as e:
         import traceback
         out['error'] = errname(e) + ': ' + str(e)[:300] + ' @ ' + traceback.format_exc()[-600:]
